@@ -7,4 +7,12 @@ def jobs(tier):
     out = []
     for s, l in (((0, 1), (2, 1), (3, 0)) if tier == 'quick' else ((0, 0), (0, 1), (1, 1), (2, 0), (2, 1), (2, 2), (3, 0), (3, 1))):
         out.append(Job('receive-s%d-l%d' % (s, l), 'node_recv.cpp', 'h_c11_receive', [s, l], reach=['refused'], snippets=SN, timeout=1500, bounds='%d shards, %d ciphertext bytes' % (s, l)))
+    # control-plane request bytes through the whole daemon/ControlServer.cpp (recv_line, parse_request, handle_client and every handler)
+    RW = {'^_ZNSt10filesystem7__cxx114path14_M_split_cmptsEv$': 'h_path_split_stub4', '?^_ZNSt10filesystem8absoluteERKNS_7__cxx114pathE$': 'h_fs_absolute4', '?^_ZNKSt10filesystem7__cxx114path11parent_pathEv$': 'h_fs_parent_empty4', '?^_ZNSt10filesystem8absoluteERKNS_7__cxx114pathERSt10error_code$': 'h_fs_absolute_ec4'}
+    for n in ((0, 1) if tier == 'quick' else (0, 1, 2)):
+        out.append(Job('control-fetch-out%d' % n, 'ctrl_full.cpp', 'h_c35_control_fetch', [n], reach=['answered'], redirect=RW, timeout=1500, bounds='FETCH with an OUT header of %d symbolic characters' % n))
+    for n in ((2, 6) if tier == 'quick' else (0, 1, 2, 3, 6, 9)):
+        out.append(Job('control-bytes%d' % n, 'ctrl_full.cpp', 'h_c35_control_bytes', [n], reach=['survived'], redirect=RW, timeout=2400, bounds='a control request of %d arbitrary bytes' % n))
+    for n in ((0, 1) if tier == 'quick' else (0, 1, 2, 3)):
+        out.append(Job('control-header-v%d' % n, 'ctrl_full.cpp', 'h_c35_control_header', [n], reach=['answered'], redirect=RW, timeout=2400, bounds='any of the 9 commands with any one of 9 headers carrying %d symbolic characters' % n))
     return out
